@@ -174,7 +174,16 @@ def run(ck: Checker):
             for term, v in r.items():
                 if term[0] == 'back' and v != (1, 1):
                     probs.append(f'an iteration performs {v} `{nm}`')
-    ck.ob('C17-2', f3, (f3.node.lineno, 'renew'), not probs, '; '.join(probs) if probs else 'renew takes exactly one marker off the data queue and moves exactly num_suppliers tokens used→spare')
+    # the round's extra marker is taken off the data queue BEFORE any token goes back to spare: once a token is
+    # recycled the used queue is no longer full, and a consumer that holds the relayed marker would try to move a
+    # token that is no longer there (it blocks for ever holding the lids lock, and renew blocks on the data queue)
+    mk = {n.id for n in cfg3.nodes if _calls(n, DATA, ('get',), sc3)}
+    rec = [n for n in cfg3.nodes if _calls(n, USED, ('get',), sc3) or _calls(n, SPARE, ('put',), sc3)]
+    for rn in rec:
+        if path_avoiding(cfg3, [cfg3.entry], {rn.id}, avoid=mk) is not None:
+            probs.append('tokens are recycled before the extra end marker is removed from the data queue: a peer consumer that already took the relayed marker then waits for ever for an applied token (holding the lids lock), and renew() waits for ever for the marker')
+            break
+    ck.ob('C17-2', f3, (f3.node.lineno, 'renew'), not probs, '; '.join(probs) if probs else 'renew takes exactly one marker off the data queue, then moves exactly num_suppliers tokens used→spare')
     # ------------------------------------------------------------------ C17-3
     rq = mod.cls('ResponsiveQueue')
     gp = rq.method('_get_put')
@@ -211,6 +220,15 @@ def run(ck: Checker):
                 probs.append('a set stop event does not raise StopRequested')
         if not stops:
             probs.append('the stop event is never tested')
+    # every normal exit returns the result of the delegated call: the loop cannot be left any other way
+    for e in cfg4.pred[cfg4.exit_return]:
+        src = cfg4.nodes[e.src]
+        if not (isinstance(src.ast, ast.Return) and isinstance(src.ast.value, ast.Call) and isinstance(src.ast.value.func, ast.Name) and src.ast.value.func.id == 'func'):
+            probs.append(f'_get_put can return (via L{src.lineno}) without having performed the operation: an expired timeout would be reported as success (a put silently drops its item, a get returns None)')
+    # expiry of the caller's timeout re-raises the queue's own Full/Empty
+    rer = [k for k in cfg4.nodes if isinstance(k.ast, ast.Raise) and k.ast.exc is None]
+    if not rer:
+        probs.append('when the caller\'s timeout expires the queue\'s Full/Empty is not re-raised')
     ck.ob('C17-3', gp, wn.ast, not probs, '; '.join(sorted(set(probs))) if probs else 'waits in slices of min(wait_interval_seconds, remaining); after each expiry the stop event is tested and StopRequested raised when set')
     # get/put go through _get_put when blocking
     for meth in ('get', 'put'):
